@@ -33,7 +33,7 @@ ROUTES = ["ctor-str", "ctor-path", "ctor-file", "parse-static", "parse-instance"
 OPT_ROUTES = {"ctor-str", "ctor-path", "ctor-file", "parse-static", "parse-instance"}
 FILE_ROUTES = {"ctor-path", "ctor-file", "parse_file-str", "parse_file-path", "parse_file-file"}
 WRONG_TYPES = ["bytes", "bytearray", "stringio", "bytesio", "int0", "int7", "list", "readable-object", "float",
-               "tuple", "binary-file", "dict", "true"]
+               "tuple", "binary-file", "dict", "true", "dict-nonempty", "ordereddict", "set", "range", "object", "pathlike"]
 
 
 class SimRaw(io.RawIOBase):
@@ -135,6 +135,22 @@ def wrong_object(kind: str, tmpdir: str) -> Any:
         return ()
     if kind == "dict":
         return {}
+    if kind == "dict-nonempty":
+        return {"schema.dbml": "Table t {\n id int\n}"}
+    if kind == "ordereddict":
+        import collections
+        return collections.OrderedDict(a="Table t {\n id int\n}")
+    if kind == "set":
+        return {"Table t {\n id int\n}"}
+    if kind == "range":
+        return range(3)
+    if kind == "object":
+        return object()
+    if kind == "pathlike":
+        class P:      # os.PathLike but not a pathlib.Path
+            def __fspath__(self) -> str:
+                return os.path.join(tmpdir, "bin.dbml")
+        return P()
     if kind == "true":
         return False
     if kind == "binary-file":
